@@ -31,6 +31,8 @@ func rulesC12(c *Ctx) {
 	ruleDoGetGuards(c)
 	ruleRecoverOnConversion(c)
 	ruleExactInstanceLookup(c)
+	ruleNarrowingKeys(c)    // an out-of-range label is rejected, not truncated onto an installed key (shared with C01)
+	ruleServerFlushTable(c) // Flush rejects unknown / empty instance names before touching the RIB (shared with C08)
 }
 
 // The RPC handlers reject unknown and empty network-instance names by looking
